@@ -2,6 +2,7 @@
 # runs every check of a tier in sequence; prints one line per property
 TIER="${1:-quick}"
 cd "$(dirname "$0")"
+mkdir -p /tmp/vlogs
 for i in 01 02 03 04 05 06 07 08 09 10 11 12 13 14 15 16 17 18 19; do
   p=C$i
   s=$(date +%s)
